@@ -106,6 +106,8 @@ func (d *Deque[T]) resize(n int) {
 	d.a = newA
 	d.front = 0
 	d.back = oldLen - 1
+	// Iterators hold indexes into the old backing slice.
+	d.gen++
 }
 
 // PopFront removes and returns the item at the front of the deque. It panics if the deque is empty.
@@ -120,6 +122,7 @@ func (d *Deque[T]) PopFront() T {
 		d.a[d.front] = zero
 		d.front = 0
 		d.back = -1
+		d.gen++
 		return item
 	}
 	d.a[d.front] = zero
@@ -140,6 +143,7 @@ func (d *Deque[T]) PopBack() T {
 		d.a[d.back] = zero
 		d.front = 0
 		d.back = -1
+		d.gen++
 		return item
 	}
 	d.a[d.back] = zero
